@@ -35,7 +35,7 @@ REACHABLE_RAISES = {
 }
 
 
-LATER_RULES = " Later rules: (R4.i) keyless orderings of tuples that can hold None; (R4.j) operations on other modules for import tracing sit in handlers; (R4.k) constant-index access to regex match lists; (R4.l) contradiction rule for snippet parses; (R4.m) validity oracles are total (SyntaxError, ValueError, RecursionError, MemoryError); (R4.n) program text handed to sympy's parser is fenced for Exception; (R4.o) loosely annotated options are normalised before set algebra; (R4.p) = C17 R17.9; (R4.q) constant-index access to possibly-empty list fields is justified by path facts, the selecting template (sa/shapes.py) or the grammar, three-valued; (R4.r) contradiction rule for computed indexes; (R4.s) operator fields of constructed nodes have the right category; (R4.t) unbound set methods are not applied to frozensets; (R4.u) no call on the tracing path executes code of the analysed project (find_spec of dotted names, import_module outside the standard library)."
+LATER_RULES = " Later rules: (R4.i) keyless orderings of tuples that can hold None; (R4.j) operations on other modules for import tracing sit in handlers; (R4.k) constant-index access to regex match lists; (R4.l) contradiction rule for snippet parses; (R4.m) validity oracles are total (SyntaxError, ValueError, RecursionError, MemoryError); (R4.n) program text handed to sympy's parser is fenced for Exception; (R4.o) loosely annotated options are normalised before set algebra; (R4.p) = C17 R17.9; (R4.q) constant-index access to possibly-empty list fields is justified by path facts, the selecting template (sa/shapes.py) or the grammar, three-valued; (R4.r) contradiction rule for computed indexes; (R4.s) operator fields of constructed nodes have the right category; (R4.t) unbound set methods are not applied to frozensets; (R4.u) no call on the tracing path executes code of the analysed project (find_spec of dotted names, import_module outside the standard library); (R4.v) format_code is fenced against the depth of the syntax tree (RecursionError hands the input back)."
 
 
 def check(prog: Program, tier: str) -> Result:
@@ -77,6 +77,7 @@ def check(prog: Program, tier: str) -> Result:
     _r4_i(prog, res)
     _r4_j(prog, res)
     _r4_u(prog, res)
+    _r4_v(prog, res)
     _r4_k(prog, res)
     _r4_l(prog, res)
     _r4_m(prog, res)
@@ -92,7 +93,7 @@ def check(prog: Program, tier: str) -> Result:
     _tmp = Result("C17", "", "")
     _c17._r17_9(prog, _tmp)
     res.adopt(_tmp, {"R17.9"}, "R4.p", "an unpinned constant can be a str or None: the operation raises TypeError out of the rule and out of format_code")
-    res.floors.update({"R4.u": 2, "R4.t": 1, "R4.s": 20, "R4.r": 1, "R4.q": 30, "R4.p": 3, "R4.o": 2, "R4.n": 2, "R4.m": 2, "R4.a": 25, "R4.b": 200, "R4.c": 4, "R4.d": 18, "R4.e": 8, "R4.f": 40, "R4.h": 2, "R4.i": 2, "R4.j": 5, "R4.k": 1})
+    res.floors.update({"R4.v": 1, "R4.u": 2, "R4.t": 1, "R4.s": 20, "R4.r": 1, "R4.q": 30, "R4.p": 3, "R4.o": 2, "R4.n": 2, "R4.m": 2, "R4.a": 25, "R4.b": 200, "R4.c": 4, "R4.d": 18, "R4.e": 8, "R4.f": 40, "R4.h": 2, "R4.i": 2, "R4.j": 5, "R4.k": 1})
     return res
 
 
@@ -1593,6 +1594,48 @@ def _r4_u(prog: Program, res: Result) -> None:
 
 
 
+# ------------------------------------------------------------------------------------------------ R4.v
+def _r4_v(prog: Program, res: Result) -> None:
+    """The rules, the matcher, unparse and ast.dump walk the syntax tree RECURSIVELY, and the depth of the tree is a quantity of
+    the input: an elif chain nests one level per branch, `a + b + c + ..` one level per operand, `x.f().f().f()` one per call -
+    a few hundred of them exceed the interpreter's stack in whichever recursive walk comes first.  No per-function bound is in
+    reach of a static argument; what is decidable is the FENCE: the entry point `format_code` runs inside a handler for
+    RecursionError that hands back the text it was given (a decorator whose wrapper returns `function(text, ..)` from the try
+    body and its own first parameter from the handler - or the same shape written inline)."""
+    fn = prog.funcs.get(("main", "format_code"))
+    if fn is None:
+        raise AnalysisError("anchor main.format_code not found")
+    def fenced_wrapper(w: ast.FunctionDef, wrapped_names) -> bool:
+        params = [a.arg for a in w.args.posonlyargs + w.args.args]
+        if not params:
+            return False
+        for t in ast.walk(w):
+            if not isinstance(t, ast.Try):
+                continue
+            calls_wrapped = any(isinstance(r, ast.Return) and isinstance(r.value, ast.Call) and isinstance(r.value.func, ast.Name) and r.value.func.id in wrapped_names
+                                and r.value.args and isinstance(r.value.args[0], ast.Name) and r.value.args[0].id == params[0] for st in t.body for r in ast.walk(st))
+            for h in t.handlers:
+                kinds = [norm(e) for e in (h.type.elts if isinstance(h.type, ast.Tuple) else [h.type])] if h.type is not None else ["BaseException"]
+                hands_back = bool(h.body) and isinstance(h.body[-1], ast.Return) and isinstance(h.body[-1].value, ast.Name) and h.body[-1].value.id == params[0]
+                if calls_wrapped and hands_back and any(k in ("RecursionError", "RuntimeError", "Exception", "BaseException") for k in kinds):
+                    return True
+        return False
+    ok, how = False, ""
+    for d in fn.node.decorator_list:
+        name = d.id if isinstance(d, ast.Name) else None
+        deco = prog.funcs.get(("main", name)) if name else None
+        if deco is None:
+            continue
+        wrapped = deco.posparams[:1]
+        for inner in ast.walk(deco.node):
+            if isinstance(inner, ast.FunctionDef) and inner is not deco.node and fenced_wrapper(inner, wrapped):
+                ok, how = True, f"decorator {name}: the wrapper returns the wrapped function's result from a try and its own text parameter from the RecursionError handler"
+    res.decide(ok, "R4.v", fn.loc(), fn.fq, "format_code # fenced against the depth of the syntax tree", how if ok else
+               "format_code does not run inside a handler for RecursionError: the recursive walks of the rules (has_side_effect, is_blocking, unparse, ast.dump) exceed "
+               "the stack on an elif chain of 400 branches or a sum of 500 strings, and the exception leaves the formatter")
+
+
+
 # ------------------------------------------------------------------------------------------------ R4.f
 _WC = re.compile(r"\{\{(\w+)[?*+]?\}\}")
 _CALL_SLOT = re.compile(r"\{\{(\w+)\(((?:\w+,?\s*)+)\)\}\}")
@@ -1761,6 +1804,9 @@ class ValidPA(PathAnalysis):
 from ..selftest import Variant  # noqa: E402
 
 VARIANTS = [
+    Variant("entry-point-without-depth-fence", "FIRE", "main", "@_hand_back_code_that_is_too_deep\ndef format_code(", "def format_code(", "R4.v"),
+    Variant("depth-fence-hands-back-nothing", "FIRE", "main", "            logger.error(\"The code is too deeply nested to be formatted\")\n            return source\n", "            logger.error(\"The code is too deeply nested to be formatted\")\n            raise\n", "R4.v"),
+    Variant("depth-fence-catches-every-exception", "SILENT", "main", "        except RecursionError:\n            logger.error(\"The code is too deeply nested", "        except (RecursionError, MemoryError):\n            logger.error(\"The code is too deeply nested", "R4.v"),
     Variant("modules-located-by-importing-their-parents", "FIRE", "tracing", "                module_spec = _find_spec_without_importing(module)\n", "                module_spec = importlib.util.find_spec(module)\n", "R4.u"),
     Variant("any-module-imported-to-list-its-exports", "FIRE", "tracing", "                if node.module in constants.PYTHON_311_STDLIB:\n                    # Logic copied", "                if node.module:\n                    # Logic copied", "R4.u"),
     Variant("definition-name-searched-in-normalised-form-only", "FIRE", "fixes", "    raise RuntimeError(f\"No definition of {node.name} in code block:\\n{codeblock}\")\n", "    raise RuntimeError(f\"Cannot find {node.name} in code block:\\n{codeblock}\")\n", "R4.g"),
